@@ -412,3 +412,25 @@ Lemma add_conn_b_witness :
     [mkNode q true NotConnected] /\
   nth 1 (reach local 1 h) [] = [mkNode p true Connected].
 Proof. cbv zeta. split; [vm_compute; auto|]. split; vm_compute; reflexivity. Qed.
+
+(* ---- the extremes of the key space ---- *)
+Lemma ilog2_none_iff : forall a b, length a = length b -> (ilog2 (kxor a b) = None <-> a = b).
+Proof.
+  intros a b HL. split; [|intros ->; apply kxor_self_ilog2].
+  revert b HL. induction a as [|x a IH]; intros [|y b] HL H; simpl in *; try discriminate; auto.
+  destruct x, y; simpl in H; try discriminate; f_equal; apply IH; auto.
+Qed.
+
+Lemma ilog2_top : forall x y a b, length a = length b -> xorb x y = true ->
+  ilog2 (kxor (x :: a) (y :: b)) = Some (length a).
+Proof.
+  intros x y a b HL H. simpl. rewrite H. rewrite kxor_length, <- HL, Nat.min_id. reflexivity.
+Qed.
+
+Lemma no_ties : forall t a b, length t = length a -> length t = length b -> a <> b ->
+  kxor t a <> kxor t b /\ (klt (kxor t a) (kxor t b) = true \/ klt (kxor t b) (kxor t a) = true).
+Proof.
+  intros t a b Ha Hb Hne.
+  assert (H : kxor t a <> kxor t b) by (intro E; apply Hne; eapply kxor_inj; eauto).
+  split; [exact H|]. apply klt_total; [|exact H]. rewrite !kxor_length. lia.
+Qed.
